@@ -278,6 +278,9 @@ type Client struct {
 	Hold bool
 	// BytesAtEOF is P.Total when EOF was seen.
 	closedSelf bool
+	// KeepOpenAfterEOF: do not close this end when the peer's end-of-file arrives.
+	KeepOpenAfterEOF bool
+	closedAfterEOF   bool
 	// RespStep[i] is the step at which the i-th final response completed.
 	RespStep []int
 	// LastSend / LastResp are simulated times of the last write and last completed response.
@@ -307,6 +310,12 @@ func NewClient(k *kernel.K, l *simnet.Listener, name, fromHost string) *Client {
 		for i := before; i < len(c.P.Final()); i++ {
 			c.RespStep = append(c.RespStep, k.StepN)
 			c.LastResp = k.Now()
+		}
+		// a client that reads end-of-file has nothing more to expect and closes its side (unless a
+		// world wants it to linger: KeepOpenAfterEOF)
+		if !c.KeepOpenAfterEOF && !c.closedSelf {
+			c.closedAfterEOF = true
+			c.C.Close()
 		}
 	}, func() {
 		c.SawRST = true
